@@ -1738,23 +1738,34 @@ func TestVerifC17(t *testing.T) {
 			default:
 				r.Count("cli_exit_nonzero", 1)
 			}
-			if c.Fault == "none" && !(br.exit == 0 && complete) {
-				fail("command-level control case %s variant %s failed: exit %d, %d records, %s", c, v.name, br.exit, nrec, br.msg)
+			if c.Fault == "none" && !(br.exit == 0 && complete) && br.exit != -2 {
+				// the control run of the command on INTACT files: a verdict on the tree, not a harness failure
+				sym := "rejected"
+				if br.exit == 0 {
+					sym = "silent-partial"
+				}
+				r.Count("control_runs_failed", 1)
+				r.Violate(fmt.Sprintf("%s/control-run/intact-files-%s:%s", who, sym, c.Codec),
+					fmt.Sprintf("%s: `%s %s` on intact files (INTACT = FAULTED = the same complete file): exit status %d, %d records written, not the complete output: %s",
+						c, v.prog, strings.Join(v.args("INTACT", "FAULTED", "OUT", b.Fmt), " "), br.exit, nrec, br.msg), c)
 			}
 		}
 	}
 
-	// controlFailed: an INTACT file is not read completely. For the images written by the Go encoders this can only
-	// be a broken harness; a file written by gzip / bzip2 / xz / zstd themselves, or made of two members, that is
-	// read partially or not at all without the fault being ours is a verdict (records silently lost).
+	// controlFailed: an INTACT file is not read completely by the tree under test (rejected, crash, hang, records
+	// lost): a verdict on the tree, never a failure of the harness, whoever wrote the image (the images of the Go
+	// encoders are checked against independent decoders when they are built; a file written by gzip / bzip2 / xz /
+	// zstd themselves, or made of two members, keeps the key it always had). The command-level runs of the control
+	// case are skipped; the fault cases of the image are still judged one by one (a run that fails there is a report).
 	controlFailed := func(c c17case, drv, what string, exit0 bool) {
-		if !strings.Contains(c.Codec, ".") {
-			fail("control case %s (%s) failed: %s", c, drv, what)
-			return
-		}
 		sym := "rejected"
 		if exit0 {
 			sym = "silent-partial"
+		}
+		r.Count("control_runs_failed", 1)
+		if !strings.Contains(c.Codec, ".") {
+			r.Violate(fmt.Sprintf("%s/control-run/intact-file-%s:%s", drv, sym, c.Codec), fmt.Sprintf("%s: an intact file is not read completely: %s", c, what), c)
+			return
 		}
 		r.Violate(fmt.Sprintf("%s/intact/%s:%s", drv, sym, c.Codec), fmt.Sprintf("%s: an intact file is not read completely: %s", c, what), c)
 	}
@@ -1800,6 +1811,14 @@ func TestVerifC17(t *testing.T) {
 		}
 		if c.Fault != "none" {
 			r.Count("faulted_cases_executed", 1)
+		} else {
+			r.Count("control_cases_executed", 1)
+		}
+		if c.Cli {
+			r.Count("cases_selected_for_the_command_level_variants", 1)
+		}
+		if c.Bin || c.Driver == "stdin" {
+			r.Count("cases_selected_for_the_binary", 1)
 		}
 		// what is appended to the keys of an accepted fault: image kind and where the fault falls
 		where := c.Codec + ":" + region
@@ -2085,6 +2104,7 @@ func TestVerifC17(t *testing.T) {
 		stdinFlip   bool
 		sampled     bool // large image: sampled positions
 	}
+	var flips []c17item
 	visit := func(c c17case, o suiteOpt) bool {
 		idx := k
 		k++
@@ -2097,6 +2117,12 @@ func TestVerifC17(t *testing.T) {
 		}
 		if c.Driver == "file" && o.cli && (c.Fault == "none" || c.Fault == "trunc" || pick) {
 			c.Cli = true
+		}
+		if c.Fault == "flip" {
+			// breadth first: the deep family (every single-bit flip, more than half of the cases) runs after every
+			// image of every base has had its control runs, truncations and read errors (same case indices)
+			flips = append(flips, c17item{idx, c})
+			return !stop.Load()
 		}
 		items <- c17item{idx, c}
 		return !stop.Load()
@@ -2263,6 +2289,12 @@ func TestVerifC17(t *testing.T) {
 			}
 		}
 	}()
+	for _, it := range flips {
+		if stop.Load() {
+			break
+		}
+		items <- it
+	}
 	close(items)
 	wg.Wait()
 	if failed() {
@@ -2274,10 +2306,12 @@ func TestVerifC17(t *testing.T) {
 	r.Sample(c17case{Base: "fq2k", Codec: "zst.tool", Driver: "file", Fault: "flip", Pos: 8*40 + 3})
 	r.Sample(c17case{Base: "em400", Codec: "plain", Driver: "readerimp", Fault: "rderr", Pos: 1000, ErrKind: "EIO"})
 	r.Sample(c17case{Base: "fa300", Codec: "gz.2m", Driver: "stdin", Fault: "trunc", Pos: 100})
+	// vacuity guards: what the harness generated and executed, never what the tree under test answered
+	// (control_ok, binary_runs and cli_runs stay as counters: they depend on the in-process outcome)
 	r.RequireNonVacuous("faulted_cases_executed")
-	r.RequireNonVacuous("binary_runs")
-	r.RequireNonVacuous("control_ok")
+	r.RequireNonVacuous("control_cases_executed")
+	r.RequireNonVacuous("cases_selected_for_the_binary")
 	if len(restricted) == 0 {
-		r.RequireNonVacuous("cli_runs")
+		r.RequireNonVacuous("cases_selected_for_the_command_level_variants")
 	}
 }
